@@ -56,24 +56,22 @@ Definition start_iteration (cr : cursor) (i : Z) (r next : obs) : cursor :=
            (c_beforeSpaces cr) (c_prevBase cr) (c_lRIOdd cr) (c_numSequence cr) (c_pictoSequence cr).
 
 (* ---- grapheme rules ---- *)
-Definition update_picto (cr : cursor) : pictoSeq * bool :=
-  match c_pictoSequence cr with
-  | noPictoSequence => (if c_isExtPic cr then inPictoExtend else noPictoSequence, false)
+Definition update_picto (st : pictoSeq) (isExtPic : bool) (grapheme : gbc) : pictoSeq * bool :=
+  match st with
+  | noPictoSequence => (if isExtPic then inPictoExtend else noPictoSequence, false)
   | inPictoExtend =>
-      if gbq (c_grapheme cr) GB_Extend then (inPictoExtend, false)
-      else if gbq (c_grapheme cr) GB_ZWJ then (seenPictoZWJ, false)
-      else if c_isExtPic cr then (inPictoExtend, false)   (* repaired (F21): a pictographic rune restarts the sequence *)
+      if gbq grapheme GB_Extend then (inPictoExtend, false)
+      else if gbq grapheme GB_ZWJ then (seenPictoZWJ, false)
+      else if isExtPic then (inPictoExtend, false)   (* repaired (F21): a pictographic rune restarts the sequence *)
       else (noPictoSequence, false)
-  | seenPictoZWJ => if c_isExtPic cr then (inPictoExtend, true) else (noPictoSequence, false)
+  | seenPictoZWJ => if isExtPic then (inPictoExtend, true) else (noPictoSequence, false)
   end.
 
-Definition update_grapheme_ri (cr : cursor) : bool * bool :=   (* new parity, trigger *)
-  if gbq (c_grapheme cr) GB_RI then (negb (c_gRIOdd cr), c_gRIOdd cr) else (false, false).
+Definition update_grapheme_ri (odd : bool) (grapheme : gbc) : bool * bool :=   (* new parity, trigger *)
+  if gbq grapheme GB_RI then (negb odd, odd) else (false, false).
 
-Definition grapheme_decision (cr : cursor) (gb11 gb1213 : bool) : bool :=
-  let br0 := c_prevGrapheme cr in
-  let br1 := c_grapheme cr in
-  if o_lf (c_r cr) && o_cr (c_prev cr) then false
+Definition grapheme_decision (prev r : obs) (br0 br1 : gbc) (gb11 gb1213 : bool) : bool :=
+  if o_lf r && o_cr prev then false
   else if gbq br0 GB_Control || gbq br0 GB_CR || gbq br0 GB_LF || gbq br1 GB_Control || gbq br1 GB_CR || gbq br1 GB_LF then true
   else if gbq br0 GB_L && (gbq br1 GB_L || gbq br1 GB_V || gbq br1 GB_LV || gbq br1 GB_LVT) then false
   else if (gbq br0 GB_LV || gbq br0 GB_V) && (gbq br1 GB_V || gbq br1 GB_T) then false
@@ -86,24 +84,21 @@ Definition grapheme_decision (cr : cursor) (gb11 gb1213 : bool) : bool :=
   else true.
 
 (* ---- word rules ---- *)
-Definition update_word_ri (cr : cursor) : bool * bool :=
-  if wbq (c_word cr) WB_ExtendFormat then (c_wRIOdd cr, false)
-  else if wbq (c_word cr) WB_RI then (negb (c_wRIOdd cr), c_wRIOdd cr)
+Definition update_word_ri (odd : bool) (word : wbc) : bool * bool :=
+  if wbq word WB_ExtendFormat then (odd, false)
+  else if wbq word WB_RI then (negb odd, odd)
   else (false, false).
 
 Definition ahletter (w : wbc) : bool := wbq w WB_ALetter || wbq w WB_Hebrew_Letter.
 Definition ahn (w : wbc) : bool := ahletter w || wbq w WB_Numeric.
 
 (* returns (isWordBoundary, removePrevNoExtend) *)
-Definition word_decision (cr : cursor) (i : Z) (wb1516 : bool) : bool * bool :=
-  let prevPrev := c_prevPrevWord cr in
-  let prev := c_prevWord cr in
-  let current := c_word cr in
-  let isAfterNoExtend := (c_prevWordNoExtend cr =? i - 1)%Z in
-  if o_cr (c_prev cr) && o_lf (c_r cr) then (false, false)
+Definition word_decision (prevr r : obs) (prevPrev prev current : wbc) (isAfterNoExtend isExtPic : bool) (wb1516 : bool)
+  : bool * bool :=
+  if o_cr prevr && o_lf r then (false, false)
   else if wbq prev WB_NewlineCRLF && isAfterNoExtend then (true, false)
   else if wbq current WB_NewlineCRLF then (true, false)
-  else if o_zwj (c_prev cr) && c_isExtPic cr then (false, false)
+  else if o_zwj prevr && isExtPic then (false, false)
   else if wbq prev WB_WSegSpace && wbq current WB_WSegSpace && isAfterNoExtend then (false, false)
   else if wbq current WB_ExtendFormat then (false, false)
   else if ahn prev && ahn current then (false, false)
@@ -148,22 +143,19 @@ Definition update_num_sequence (st : numSeq) (line : lbc) : numSeq * bool :=
 Definition setif (c : bool) (v : breakOp) (b : breakOp) : breakOp := if c then v else b.
 
 Section LineRules.
-  Variable cr : cursor.          (* after ruleLB1: c_line is the resolved class *)
-  Let p0 := c_prevLine cr.
-  Let pp := c_prevPrevLine cr.
-  Let b1 := c_line cr.
-  Let bs := c_beforeSpaces cr.
+  (* the cursor fields the line rules read (c_line after ruleLB1) *)
+  Variables (p0 pp : option lbc) (b1 : lbc) (bs : option lbc) (prevr base r : obs) (nextLine : lbc) (riodd : bool).
   Let is1 (k : lbc) := lbq b1 k.
   Let is0 (k : lbc) := is_lb p0 k.
 
   Definition rule_lb30 (b : breakOp) : breakOp :=
-    let b := setif ((is0 LB_AL || is0 LB_HL || is0 LB_NU) && is1 LB_OP && negb (o_wide (c_r cr))) breakProhibited b in
-    setif (is0 LB_CP && negb (o_wide (c_prevBase cr)) && (is1 LB_AL || is1 LB_HL || is1 LB_NU)) breakProhibited b.
+    let b := setif ((is0 LB_AL || is0 LB_HL || is0 LB_NU) && is1 LB_OP && negb (o_wide r)) breakProhibited b in
+    setif (is0 LB_CP && negb (o_wide base) && (is1 LB_AL || is1 LB_HL || is1 LB_NU)) breakProhibited b.
 
   Definition rule_lb30ab (b : breakOp) : breakOp :=
-    let b := setif (c_lRIOdd cr && is1 LB_RI) breakProhibited b in
+    let b := setif (riodd && is1 LB_RI) breakProhibited b in
     let b := setif (is0 LB_EB && is1 LB_EM) breakProhibited b in
-    setif (o_pic (c_prevBase cr) && o_cn (c_prevBase cr) && is1 LB_EM) breakProhibited b.
+    setif (o_pic base && o_cn base && is1 LB_EM) breakProhibited b.
 
   Let jamo_any (f : lbc -> bool) := f LB_JL || f LB_JV || f LB_JT || f LB_H2 || f LB_H3.
 
@@ -178,7 +170,7 @@ Section LineRules.
 
   Definition rule_lb25 (trigger : bool) (b : breakOp) : breakOp :=
     let b := setif ((is0 LB_PR || is0 LB_PO) && is1 LB_NU) breakProhibited b in
-    let b := setif ((is0 LB_PR || is0 LB_PO) && (is1 LB_OP || is1 LB_HY) && lbq (c_nextLine cr) LB_NU) breakProhibited b in
+    let b := setif ((is0 LB_PR || is0 LB_PO) && (is1 LB_OP || is1 LB_HY) && lbq nextLine LB_NU) breakProhibited b in
     let b := setif ((is0 LB_OP || is0 LB_HY) && is1 LB_NU) breakProhibited b in
     let b := setif (is0 LB_NU && (is1 LB_NU || is1 LB_SY || is1 LB_IS)) breakProhibited b in
     setif trigger breakProhibited b.
@@ -213,12 +205,12 @@ Section LineRules.
 
   Definition rule_lb8 (b : breakOp) : breakOp :=
     let b := setif (is_lb bs LB_ZW) breakAllowed b in
-    setif (o_zwjtab (c_prev cr)) breakProhibited b.
+    setif (o_zwjtab prevr) breakProhibited b.
 
   Definition rule_lb7to4 (b : breakOp) : breakOp :=
     let b := setif (is1 LB_SP || is1 LB_ZW) breakProhibited b in
     let b := setif (is1 LB_BK || is1 LB_CR || is1 LB_LF || is1 LB_NL) breakProhibited b in
-    setif (is0 LB_BK || (is0 LB_CR && negb (o_lf (c_r cr))) || is0 LB_LF || is0 LB_NL) breakMandatory b.
+    setif (is0 LB_BK || (is0 LB_CR && negb (o_lf r)) || is0 LB_LF || is0 LB_NL) breakMandatory b.
 
   Definition line_decision (trigger : bool) : breakOp :=
     rule_lb7to4 (rule_lb8 (rule_lb21to9 (rule_lb24to22 (rule_lb25 trigger (rule_lb29to26 (rule_lb30ab (rule_lb30 breakEmpty))))))).
@@ -249,15 +241,17 @@ Definition set_rules_state (cr : cursor) (gri : bool) (picto : pictoSeq) (wri : 
    position i and the index whose word flag must be cleared (if any) *)
 Definition step (cr0 : cursor) (i : Z) (r next : obs) : cursor * attr * option Z :=
   let cr := start_iteration cr0 i r next in
-  let '(picto, gb11) := update_picto cr in
-  let '(gri, gb1213) := update_grapheme_ri cr in
-  let isG := grapheme_decision cr gb11 gb1213 in
-  let '(wri, wb1516) := update_word_ri cr in
-  let '(isW, remove) := word_decision cr i wb1516 in
+  let '(picto, gb11) := update_picto (c_pictoSequence cr) (c_isExtPic cr) (c_grapheme cr) in
+  let '(gri, gb1213) := update_grapheme_ri (c_gRIOdd cr) (c_grapheme cr) in
+  let isG := grapheme_decision (c_prev cr) (c_r cr) (c_prevGrapheme cr) (c_grapheme cr) gb11 gb1213 in
+  let '(wri, wb1516) := update_word_ri (c_wRIOdd cr) (c_word cr) in
+  let '(isW, remove) := word_decision (c_prev cr) (c_r cr) (c_prevPrevWord cr) (c_prevWord cr) (c_word cr)
+                                      (c_prevWordNoExtend cr =? i - 1) (c_isExtPic cr) wb1516 in
   let line := rule_lb1 (c_r cr) (c_line cr) in
   let '(ns, trigger) := update_num_sequence (c_numSequence cr) line in
   let cr1 := set_rules_state cr gri picto wri line ns in
-  let bo := line_decision cr1 trigger in
+  let bo := line_decision (c_prevLine cr1) (c_prevPrevLine cr1) (c_line cr1) (c_beforeSpaces cr1) (c_prev cr1)
+                          (c_prevBase cr1) (c_r cr1) (c_nextLine cr1) (c_lRIOdd cr1) trigger in
   let '(ln, mand) := match bo with
                      | breakEmpty | breakAllowed => (true, false)
                      | breakProhibited => (false, false)
